@@ -204,6 +204,12 @@ def opts_oracle(r):
                % (r["misfired_chan_cap"], "never drains" if r["listener"] == "never" else "takes 150 ms per event", r["misfires_in_a_row"], r["mode"]))
     else:
         cfg = ("OutdatedThreshold %s, RetryInterval %s, %s mode" % ("default" if thr == 0 else "%d ns" % thr, "default" if ri == 0 else "%d ns" % ri, r["mode"]))
+        if r.get("overdue_head_fire_time"):
+            cfg += ", the head of the queue is a job whose trigger returned the fire time %d (hopelessly overdue)" % r["overdue_head_fire_time"]
+    if "+" in r["mode"]:
+        cfg += " (options given in this order: %s)" % " then ".join({"blocking": "WithBlockingExecution()", "limit": "WithWorkerLimit(2)"}[x] for x in r["mode"].split("+"))
+    if True:
+        pass
     if r.get("api_call_hung"):
         why.append("%s: %s did not return within 5 s (the loop holds the queue lock)" % (cfg, r["api_call_hung"]))
     if r["due_execs"] != 1:
@@ -220,7 +226,7 @@ def opts_oracle(r):
     return why
 
 
-OPTS_KEY = ("test", "mode", "misfired_chan_cap", "listener", "misfires_in_a_row", "outdated_threshold_ns", "retry_interval_ns")
+OPTS_KEY = ("test", "mode", "misfired_chan_cap", "listener", "misfires_in_a_row", "outdated_threshold_ns", "retry_interval_ns", "overdue_head_fire_time")
 
 
 def run_opts(binp):
